@@ -1,15 +1,141 @@
 """C05 - rewriting to the restricted syntax and LNot preserve meaning.
 Theorems (Properties/C05.v): LNot_sem, LNot_head, restrict_sem, restrict_alpha, restrict_ctl_spec.
 Correspondence (syntactic, the tightest tie available): the tree returned by
-get_equivalent_restricted_formula() / LNot on live objects equals the model's tree."""
+get_equivalent_restricted_formula() / LNot on live objects equals the model's tree (atom names compared byte-exactly), and every node
+of the result belongs to the language module of the formula that was rewritten."""
 from common import *
 from mccheck import *
 LEVEL = 'proof'
 
 RCMD = {'LTL': 'restrictltl', 'CTLS': 'restrict'}
 RESTR = {'true', 'false', 'ap', 'not', 'or', 'X', 'U', 'E'}
+LOGICS = ('CTL', 'LTL', 'CTLS')
 
 
+# ----------------------------------------------------------------------------------------------------------------------------------
+# local copies of helpers of common.py (this check does not depend on the width distribution of common.rand_nary)
+# ----------------------------------------------------------------------------------------------------------------------------------
+def fstr(f):
+    """readable rendering of a formula tuple; connectives with fewer than two operands are written in prefix form"""
+    t = f[0]
+    if t in ('true', 'false'):
+        return t
+    if t == 'ap':
+        return f[1]
+    if t in UNARY:
+        return '%s(%s)' % (t, fstr(f[1]))
+    if t in NARY and len(f) < 3:
+        return '%s[%d](%s)' % (t, len(f) - 1, ', '.join(fstr(g) for g in f[1:]))
+    return '(' + (' %s ' % t).join(fstr(g) for g in f[1:]) + ')'
+
+
+def _enc(name):
+    """atom name -> the byte string the model sees (the model treats names as opaque byte strings; UTF-8 is injective)"""
+    return name.encode('utf-8').decode('latin-1')
+
+
+def _dec(name):
+    return name.encode('latin-1').decode('utf-8')
+
+
+def fsx5(f):
+    t = f[0]
+    if t == 'true':
+        return ['t']
+    if t == 'false':
+        return ['f']
+    if t == 'ap':
+        return ['a', Q(_enc(f[1]))]
+    return [t] + [fsx5(g) for g in f[1:]]
+
+
+def fparse5(x):
+    t = x[0]
+    if t == 't':
+        return ('true',)
+    if t == 'f':
+        return ('false',)
+    if t == 'a':
+        return ('ap', _dec(str(x[1])))
+    return (t,) + tuple(fparse5(y) for y in x[1:])
+
+
+# widths of or/and: the classes accept any number of operands (And(*constraints) with one or no constraint, the parsers build flat
+# connectives of any width)
+WIDE = (0, 1, 4, 5, 6, 7, 8, 9, 10, 11, 12)
+
+
+def rand_leaf5(rng, aps):
+    r = rng.random()
+    if r < 0.1:
+        return ('true',)
+    if r < 0.15:
+        return ('false',)
+    return ('ap', rng.choice(aps))
+
+
+def rand_nary5(rng, t, gen, gen_small):
+    x = rng.random()
+    if x < 0.74:
+        return (t,) + tuple(gen() for _ in range(2))
+    if x < 0.88:
+        return (t,) + tuple(gen() for _ in range(3))
+    if x < 0.92:
+        return (t,) + tuple(gen() for _ in range(rng.choice((0, 1))))
+    return (t,) + tuple(gen_small() for _ in range(rng.choice(WIDE)))
+
+
+def rand_ctl5(rng, d, aps=('p', 'q')):
+    if d == 0 or rng.random() < 0.2:
+        return rand_leaf5(rng, aps)
+    t = rng.choice(['not', 'or', 'and', 'imp', 'Q', 'Q', 'Q', 'Q'])
+    if t == 'not':
+        return (t, rand_ctl5(rng, d - 1, aps))
+    if t in ('or', 'and'):
+        return rand_nary5(rng, t, lambda: rand_ctl5(rng, d - 1, aps), lambda: rand_ctl5(rng, min(d - 1, 1), aps))
+    if t == 'imp':
+        return (t, rand_ctl5(rng, d - 1, aps), rand_ctl5(rng, d - 1, aps))
+    q = rng.choice(['A', 'E'])
+    o = rng.choice(['X', 'F', 'G', 'U', 'R'])
+    if o in 'XFG':
+        return (q, (o, rand_ctl5(rng, d - 1, aps)))
+    return (q, (o, rand_ctl5(rng, d - 1, aps), rand_ctl5(rng, d - 1, aps)))
+
+
+def rand_path5(rng, d, aps=('p', 'q'), quant=False):
+    """LTL path formula (quant=False) or CTL* path formula (quant=True)"""
+    if d == 0 or rng.random() < 0.2:
+        return rand_leaf5(rng, aps)
+    ops = ['not', 'or', 'and', 'imp', 'X', 'F', 'G', 'U', 'R'] + (['A', 'E'] if quant else [])
+    t = rng.choice(ops)
+    if t in UNARY:
+        return (t, rand_path5(rng, d - 1, aps, quant))
+    if t in NARY:
+        return rand_nary5(rng, t, lambda: rand_path5(rng, d - 1, aps, quant), lambda: rand_path5(rng, min(d - 1, 1), aps, quant))
+    return (t, rand_path5(rng, d - 1, aps, quant), rand_path5(rng, d - 1, aps, quant))
+
+
+def rand_of(logic, rng, d, aps=('p', 'q')):
+    return rand_ctl5(rng, d, aps) if logic == 'CTL' else rand_path5(rng, d, aps, quant=(logic == 'CTLS'))
+
+
+def ren(f, m):
+    if f[0] == 'ap':
+        return ('ap', m.get(f[1], f[1]))
+    if f[0] in ('true', 'false'):
+        return f
+    return (f[0],) + tuple(ren(g, m) for g in f[1:])
+
+
+def nary_widths(f, h):
+    for g in subformulas(f):
+        if g[0] in NARY:
+            h[len(g) - 1] = h.get(len(g) - 1, 0) + 1
+
+
+# ----------------------------------------------------------------------------------------------------------------------------------
+# observers that do not need the model
+# ----------------------------------------------------------------------------------------------------------------------------------
 def alphabet_ok(t, ctl):
     """restricted alphabet recomputed on the python result (independent of the model)"""
     if ctl:
@@ -28,47 +154,224 @@ def starts_two_nots(t):
     return t[0] == 'not' and t[1][0] == 'not'
 
 
+def ntemporal(f):
+    return sum(1 for g in subformulas(f) if g[0] in TEMPORAL)
+
+
+def norm_nary(f):
+    """meaning of connectives of width 0 and 1 from first principles (or = any, and = all): or() = false, and() = true,
+    or(x) = and(x) = x; the reference evaluator then only sees widths >= 2"""
+    t = f[0]
+    if t in ('true', 'false', 'ap'):
+        return f
+    gs = tuple(norm_nary(g) for g in f[1:])
+    if t in NARY and len(gs) == 0:
+        return ('false',) if t == 'or' else ('true',)
+    if t in NARY and len(gs) == 1:
+        return gs[0]
+    return (t,) + gs
+
+
 _SEARCH = []
+_SEARCH_N = {}
+
+
+def _structures(names):
+    """structures whose labels are drawn from the formula's OWN atom names.  <= 2 names: every 1-state structure, a sample of the
+    2-state ones, 3-state lassos, random structures with 3-5 states over the two names.  More names (wide connectives over distinct
+    atoms, atoms renamed by the rewriting): one-state structures labelled with no/every/each single/all-but-one name and random
+    subsets, then lassos and random structures with random labels."""
+    if len(names) <= 2:
+        if not _SEARCH:
+            r0 = random.Random(5)
+            labs = [[], ['p'], ['q'], ['p', 'q']]
+            lassos = [{'S': [0, 1, 2], 'S0': [], 'R': [(0, 1), (1, 2), (2, 2)], 'L': {0: a, 1: b, 2: c}} for a in labs for b in labs for c in labs]
+            r0.shuffle(lassos)
+            _SEARCH.extend(lassos + list(all_kripkes(1)) + r0.sample(list(all_kripkes(2)), 60) +
+                           [rand_kripke(r0, r0.randint(3, 5), maxdeg=2) for _ in range(120)])
+        m = dict(zip(('p', 'q'), names)) if (names and not set(names) <= {'p', 'q'}) else None
+        if not m:
+            return _SEARCH
+        return [dict(kd, L={s_: [m.get(a, a) for a in ls] for s_, ls in kd['L'].items()}) for kd in _SEARCH]
+    key = tuple(names)
+    if key not in _SEARCH_N:
+        r0 = random.Random(7)
+        names = list(names)
+        labsets = [[], list(names)] + [[a] for a in names] + [[b for b in names if b != a] for a in names]
+        labsets += [[a for a in names if r0.random() < pr] for pr in (0.5, 0.2, 0.8) for _ in range(12)]
+        out = [{'S': [0], 'S0': [], 'R': [(0, 0)], 'L': {0: ls}} for ls in labsets]
+        for _ in range(60):
+            out.append({'S': [0, 1, 2], 'S0': [], 'R': [(0, 1), (1, 2), (2, r0.choice((0, 1, 2)))],
+                        'L': {s_: list(r0.choice(labsets)) for s_ in range(3)}})
+        for _ in range(60):
+            kd = rand_kripke(r0, r0.randint(2, 5), maxdeg=2)
+            kd['L'] = {s_: list(r0.choice(labsets)) for s_ in kd['S']}
+            out.append(kd)
+        if len(_SEARCH_N) > 64:
+            _SEARCH_N.clear()
+        _SEARCH_N[key] = out
+    return _SEARCH_N[key]
 
 
 def semantic_counterexample(f, r, rng):
-    """search structures for a state where f and r differ under the reference semantics: every 1-state structure, a sample of the
-    2-state ones, and random structures with 3-5 states (an until over alternating labels needs >= 3 states).  Path formulas are
-    compared under both quantifiers (A f vs A r, E f vs E r)."""
-    if not _SEARCH:
-        r0 = random.Random(5)
-        labs = [[], ['p'], ['q'], ['p', 'q']]
-        lassos = [{'S': [0, 1, 2], 'S0': [], 'R': [(0, 1), (1, 2), (2, 2)], 'L': {0: a, 1: b, 2: c}} for a in labs for b in labs for c in labs]
-        r0.shuffle(lassos)
-        _SEARCH.extend(lassos + list(all_kripkes(1)) + r0.sample(list(all_kripkes(2)), 60) +
-                       [rand_kripke(r0, r0.randint(3, 5), maxdeg=2) for _ in range(120)])
+    """search structures for a state where f and r differ under the reference semantics (see _structures); the structures are labelled
+    with the atom names of f AND of r (a rewriting that renames an atom is refuted by a state labelled with only one of the two names).
+    Path formulas are compared under both quantifiers (A f vs A r, E f vs E r)."""
     pairs = [(f, r)] if (is_ctls_state(f) and is_ctls_state(r)) else [(('A', f), ('A', r)), (('E', f), ('E', r))]
-    if fsize(f) > 14:
-        return None           # the reference evaluator is exponential in the formula: witnesses are searched for small formulas only
+    # the reference evaluator is exponential in the number of temporal operators (not in the width of the connectives): witnesses are
+    # searched for small formulas and for wide formulas with few temporal operators
+    if fsize(f) > 14 and (ntemporal(f) > 3 or ntemporal(r) > 6 or fsize(f) > 200):
+        return None
     t_end = time.time() + 3.0
-    names = sorted(fatoms(f))
-    m = dict(zip(('p', 'q'), names)) if (names and not set(names) <= {'p', 'q'}) else None
-    for kd in _SEARCH:
+    names = sorted(fatoms(f) | fatoms(r))
+    npairs = [(norm_nary(a), norm_nary(b)) for a, b in pairs]
+    for kd in _structures(names):
         if time.time() > t_end:
             return None
-        if m:           # the structures are labelled with the formula's own atom names
-            kd = dict(kd, L={s_: [m.get(a, a) for a in ls] for s_, ls in kd['L'].items()})
-        for a, b in pairs:
+        for (a, b), (na, nb) in zip(pairs, npairs):
             try:
-                if ref_check(kd, a) != ref_check(kd, b):
+                if ref_check(kd, na) != ref_check(kd, nb):
                     return {'kripke': kd_json(kd), 'original': fstr(a), 'rewritten': fstr(b),
-                            'states_original': sorted(ref_check(kd, a)), 'states_rewritten': sorted(ref_check(kd, b))}
+                            'states_original': sorted(ref_check(kd, na)), 'states_rewritten': sorted(ref_check(kd, nb))}
             except Exception:
                 return None
     return None
 
 
-def run(R):
+# ----------------------------------------------------------------------------------------------------------------------------------
+# one case: implementation observation, model commands, comparison
+# ----------------------------------------------------------------------------------------------------------------------------------
+def impl_obs(logic, f):
     from pyModelChecking.language import LNot
-    import pyModelChecking.CTL as CTL, pyModelChecking.LTL as LTL, pyModelChecking.CTLS as CTLS
-    R.rule = ('formulas of each logic: all CTL state formulas of depth <= 1 and a sample of depth 2 (all in thorough), all path formulas with <= 2 operators '
-              '(with and without quantifiers) as LTL / CTL* objects, random to depth 5; compared: tree of get_equivalent_restricted_formula() and of LNot '
-              'vs model, restricted-alphabet membership recomputed on the python object, no leading double negation; non-trivial = the rewrite changes the tree')
+    o = to_py(f, lang_module(logic))
+    s0 = str(o)
+    box = {}
+
+    def rw():
+        x = o.get_equivalent_restricted_formula()
+        box['r'] = sorted(langs_in(x))
+        return tree_of(x)
+
+    def ng():
+        x = LNot(o)
+        box['ln'] = sorted(langs_in(x))
+        return tree_of(x)
+    r = call(rw)
+    ln = call(ng)
+    return r, ln, str(o) == s0, box.get('r'), box.get('ln')
+
+
+def model_cmds(logic, f):
+    c1 = ['restrictctl', fsx5(f)] if logic == 'CTL' else [RCMD[logic], fsx5(f)]
+    # LNot of an LTL state formula A g would be Not(A g), which is not LTL: TypeError (model: mk)
+    c2 = ['mk', 'LTL', 'not', ['LTL', fsx5(f)]] if (logic == 'LTL' and f[0] == 'A') else ['lnot', fsx5(f)]
+    return [c1, c2]
+
+
+def model_obs(logic, f, o_r, o_ln):
+    if logic == 'CTL':
+        m_r = ('ok', fparse5(o_r[1])) if o_r[0] == 'some' else ('err', 'TypeError')
+    else:
+        m_r = ('ok', fparse5(o_r))
+    if logic == 'LTL' and f[0] == 'A':
+        m_ln = ('ok', fparse5(o_ln[1][1])) if o_ln[0] == 'ok' else ('err', o_ln[1])
+    else:
+        m_ln = ('ok', fparse5(o_ln))
+    return m_r, m_ln
+
+
+def judge(logic, f, obs, m_r, m_ln):
+    r, ln, unchanged, lang_r, lang_ln = obs
+    bad = []
+    if tuple(r) != m_r:
+        bad.append('restricted')
+    if tuple(ln) != m_ln:
+        bad.append('LNot')
+    # an LTL formula is A rho: the documented restricted LTL syntax restricts the path formula rho
+    rr = r[1][1] if (r[0] == 'ok' and logic == 'LTL' and f[0] == 'A' and r[1][0] == 'A') else (r[1] if r[0] == 'ok' else None)
+    if r[0] == 'ok' and not alphabet_ok(rr, logic == 'CTL'):
+        bad.append('alphabet')
+    if ln[0] == 'ok' and starts_two_nots(ln[1]):
+        bad.append('double-negation')
+    if not unchanged:
+        bad.append('formula modified')
+    # the result is a formula OF THE SAME LOGIC: every node is an object of the language module of the rewritten formula
+    if (lang_r is not None and lang_r != [logic]) or (lang_ln is not None and lang_ln != [logic]):
+        bad.append('module')
+    return bad
+
+
+CONCRETE = ('alphabet', 'double-negation', 'formula modified', 'module')
+
+
+def witness(f, r, ln, bad, rng):
+    cex = None
+    if 'restricted' in bad and r[0] == 'ok':
+        cex = semantic_counterexample(f, r[1], rng)
+    if cex is None and 'LNot' in bad and ln[0] == 'ok':
+        # LNot(f) must be equivalent to not f: look for a structure/state where they differ
+        # state formulas: not f vs LNot f;  path formulas: A f vs A not (LNot f)
+        if is_ctls_state(f):
+            cex = semantic_counterexample(('not', f), ln[1], rng)
+        else:
+            cex = semantic_counterexample(('A', f), ('A', ('not', ln[1])), rng)
+    return cex
+
+
+# ----------------------------------------------------------------------------------------------------------------------------------
+# streams
+# ----------------------------------------------------------------------------------------------------------------------------------
+# atom names that are not identifiers (blanks, operators, brackets, quotes, printed formulas, reserved words): the rewriting may
+# not look at, let alone change, the NAME of an atom - the model treats names as opaque strings
+EXOTIC = ['door open', 'x>0', 'not p', '(p or q)', 'p U q', '"q"', 'A', 'true', '', ' p', 'p ', 'a.b', "it's", '[E(X(p))]', 'fair0']
+# pairs of DISTINCT names that collapse to one name under some normalisation of text: dropping or replacing non-ASCII characters,
+# unicode normal forms (NFC/NFKC), case folding, stripping, truncation.  Any str is a legal atom name.
+COLLAPSING = [('porta_\u00e8_aperta', 'porta_\u00e9_aperta'), ('\u03b1', '\u03b2'), ('na\u00efve', 'nave'), ('p\u0301', 'p'), ('q', 'q '),
+              ('\u30c9\u30a2\u958b', '\u30c9\u30a2\u9589'), ('\u00e9', 'e\u0301'), ('\u212b', '\u00c5'), ('\ufb01', 'fi'), ('\u00df', 'ss'),
+              ('P', 'p'), ('\u00c9tat', '\u00e9tat'), ('p\u200b', 'p'), ('t\u00fcr_auf', 't\u00fcr_zu'), ('x\u2081', 'x\u2082'),
+              ('\U0001f6aa', '\U0001f511'), ('stato_molto_lungo_numero_00000000000000000000000000000001', 'stato_molto_lungo_numero_00000000000000000000000000000002'),
+              ('p\x00', 'p'), ('p\n', 'p'), ('\u00e8', '?'), ('caf\u00e9', 'caf\\xe9'), ('\u00e8', '\u00c3\u00a8')]
+
+
+def wide_stream(rng, thorough):
+    """or/and of EVERY width 0..13 (and a few wider ones) in each logic: over distinct atoms p1..pw (dropping, duplicating or
+    regrouping an operand changes the meaning on a one-state structure), over small random operands, under every kind of context"""
+    items = []
+    widths = list(range(0, 14)) + [16, 17, 24, 25, 32, 33] + ([40, 64, 65, 100] if thorough else [])
+    for logic in LOGICS:
+        small = lambda: rand_of(logic, rng, 1)
+        for op in NARY:
+            for w in widths:
+                dist = (op,) + tuple(('ap', 'p%d' % i) for i in range(1, w + 1))
+                ws = [dist, (op,) + tuple(('not', g) if rng.random() < 0.3 else g for g in dist[1:])]
+                for _ in range(6 if thorough else 2):
+                    ws.append((op,) + tuple(small() for _ in range(w)))
+                if w <= 13:
+                    # wide inside wide: the inner connective is one operand of the outer one
+                    inner = ('and' if op == 'or' else 'or',) + tuple(('ap', 'r%d' % i) for i in range(1, rng.choice((1, 3, 9)) + 1))
+                    pos = rng.randint(0, w)
+                    ws.append(dist[:1 + pos] + (inner,) + dist[1 + pos:])
+                for W in ws:
+                    items.append((logic, W))
+                    x = small()
+                    ctx = [('not', W), ('imp', W, x), ('imp', x, W), (rng.choice(NARY), x, W), (rng.choice(NARY), W, x, W)]
+                    if logic == 'CTL':
+                        ctx += [(rng.choice('AE'), (rng.choice('XFG'), W)), (rng.choice('AE'), ('U', x, W)), (rng.choice('AE'), ('R', W, x))]
+                    else:
+                        ctx += [(rng.choice('XFG'), W), ('U', x, W), ('R', W, x), ('U', W, x)]
+                        if logic == 'CTLS':
+                            ctx += [('A', W), ('E', ('G', W))]
+                    for c in (ctx if (thorough or W is dist) else rng.sample(ctx, 3)):
+                        items.append((logic, c))
+    out = []
+    for logic, f in items:
+        out.append((logic, f))
+        if logic == 'LTL':
+            out.append((logic, ('A', f)))
+    return out
+
+
+def build_items(R):
     rng = R.rng
     items = []   # (logic, tree)
     ctlp = ctl_formulas_depth(2)
@@ -83,95 +386,98 @@ def run(R):
         items.append(('CTLS', g))
     for _ in range(20000 if R.thorough else 2500):
         d = rng.randint(2, 5)
-        items.append(('CTL', rand_ctl(rng, d)))
-        items.append(('LTL', rand_path(rng, d)))
-        items.append(('CTLS', rand_path(rng, d, quant=True)))
-    # atom names that are not identifiers (blanks, operators, brackets, quotes, printed formulas, reserved words): the rewriting may
-    # not look at, let alone change, the NAME of an atom - the model treats names as opaque strings
-    EXOTIC = ['door open', 'x>0', 'not p', '(p or q)', 'p U q', '"q"', 'A', 'true', '', ' p', 'p ', 'a.b', "it's", '[E(X(p))]', 'fair0']
-
-    def ren(f, m):
-        if f[0] == 'ap':
-            return ('ap', m.get(f[1], f[1]))
-        if f[0] in ('true', 'false'):
-            return f
-        return (f[0],) + tuple(ren(g, m) for g in f[1:])
-    for logic, f in rng.sample(items, min(len(items), 6000 if R.thorough else 700)):
+        items.append(('CTL', rand_ctl5(rng, d)))
+        items.append(('LTL', rand_path5(rng, d)))
+        items.append(('CTLS', rand_path5(rng, d, quant=True)))
+    n_base = len(items)
+    wide = wide_stream(rng, R.thorough)
+    items.extend(wide)
+    pool = list(items)
+    for logic, f in rng.sample(pool, min(len(pool), 6000 if R.thorough else 700)):
         m = dict(zip(('p', 'q'), rng.sample(EXOTIC, 2)))
         items.append((logic, ren(f, m)))
+    # non-ASCII / collapsing names: every pair on a fixed set of small formulas that use BOTH names, and on sampled formulas
+    n0 = len(items)
+    fixed = {'CTL': [('ap', 'p'), ('and', ('ap', 'p'), ('not', ('ap', 'q'))), ('A', ('G', ('imp', ('ap', 'p'), ('E', ('F', ('ap', 'q'))))))],
+             'LTL': [('ap', 'q'), ('and', ('ap', 'p'), ('not', ('ap', 'q'))), ('G', ('imp', ('ap', 'p'), ('F', ('ap', 'q')))), ('A', ('U', ('ap', 'p'), ('ap', 'q')))],
+             'CTLS': [('ap', 'p'), ('or', ('not', ('ap', 'p')), ('ap', 'q')), ('A', ('R', ('ap', 'q'), ('E', ('X', ('ap', 'p')))))]}
+    for a, b in COLLAPSING:
+        for logic in LOGICS:
+            for f in fixed[logic]:
+                items.append((logic, ren(f, {'p': a, 'q': b})))
+    for logic, f in rng.sample(pool, min(len(pool), 6000 if R.thorough else 700)):
+        pr = list(rng.choice(COLLAPSING))
+        rng.shuffle(pr)
+        m = dict(zip(('p', 'q'), pr))
+        if rng.random() < 0.3:     # wide connectives over distinct atoms: every atom gets a non-ASCII name
+            m.update({'p%d' % i: 'p\u00e8%d' % i for i in range(1, 34)})
+        items.append((logic, ren(f, m)))
+    return items, {'base': n_base, 'wide': len(wide), 'exotic_names': n0 - n_base - len(wide), 'collapsing_names': len(items) - n0}
+
+
+def run(R):
+    R.rule = ('formulas of each logic: all CTL state formulas of depth <= 1 and a sample of depth 2 (all in thorough), all path formulas with <= 2 operators '
+              '(with and without quantifiers) as LTL / CTL* objects, random to depth 5 (or/and mostly of width 2-3, also 0, 1 and 4-12); WIDE stream: or/and of '
+              'every width 0..13 and 16,17,24,25,32,33 over distinct atoms p1..pw, over small random operands, nested in one another and under not/imp/or/and/'
+              'temporal operators/quantifiers; NAMES: a sample renamed to non-identifier names and to pairs of distinct non-ASCII / unicode names that collapse '
+              'under ascii-ignore, NFC/NFKC, case folding, stripping (names reach the model as their UTF-8 bytes); compared: tree of '
+              'get_equivalent_restricted_formula() and of LNot vs model (atom names byte-exact), language module of every node of both results = module of the '
+              'input, restricted-alphabet membership recomputed on the python object, no leading double negation, input unchanged; witnesses: structures '
+              'labelled with the atom names of the formula and of its rewriting; non-trivial = the rewrite changes the tree')
+    rng = R.rng
+    items, dist = build_items(R)
     cmds, meta = [], []
     for logic, f in items:
-        L = {'CTL': CTL, 'LTL': LTL, 'CTLS': CTLS}[logic]
-        o = to_py(f, L)
-        s0 = str(o)
-        r = call(lambda: tree_of(o.get_equivalent_restricted_formula()))
-        ln = call(lambda: tree_of(LNot(o)))
-        meta.append((logic, f, r, ln, str(o) == s0))
-        cmds.append(['restrictctl', fsx(f)] if logic == 'CTL' else [RCMD[logic], fsx(f)])
-        # LNot of an LTL state formula A g would be Not(A g), which is not LTL: TypeError (model: mk)
-        cmds.append(['mk', 'LTL', 'not', ['LTL', fsx(f)]] if (logic == 'LTL' and f[0] == 'A') else ['lnot', fsx(f)])
+        meta.append((logic, f, impl_obs(logic, f)))
+        cmds.extend(model_cmds(logic, f))
     outs = model_batch_parallel(cmds)
-    nsearch = [0.0]
-    for i, (logic, f, r, ln, unchanged) in enumerate(meta):
+    nsearch = 0.0
+    hw, nonascii = {}, 0
+    for i, (logic, f, obs) in enumerate(meta):
         R.evaluations += 1
-        o_r, o_ln = outs[2 * i], outs[2 * i + 1]
-        if logic == 'CTL':
-            m_r = ('ok', fparse(o_r[1])) if o_r[0] == 'some' else ('err', 'TypeError')
-        else:
-            m_r = ('ok', fparse(o_r))
-        if logic == 'LTL' and f[0] == 'A':
-            m_ln = ('ok', fparse(o_ln[1][1])) if o_ln[0] == 'ok' else ('err', o_ln[1])
-        else:
-            m_ln = ('ok', fparse(o_ln))
-        bad = []
-        if tuple(r) != m_r:
-            bad.append('restricted')
-        if tuple(ln) != m_ln:
-            bad.append('LNot')
-        # an LTL formula is A rho: the documented restricted LTL syntax restricts the path formula rho
-        rr = r[1][1] if (r[0] == 'ok' and logic == 'LTL' and f[0] == 'A' and r[1][0] == 'A') else (r[1] if r[0] == 'ok' else None)
-        if r[0] == 'ok' and not alphabet_ok(rr, logic == 'CTL'):
-            bad.append('alphabet')
-        if ln[0] == 'ok' and starts_two_nots(ln[1]):
-            bad.append('double-negation')
-        if not unchanged:
-            bad.append('formula modified')
+        m_r, m_ln = model_obs(logic, f, outs[2 * i], outs[2 * i + 1])
+        r, ln = obs[0], obs[1]
+        nary_widths(f, hw)
+        if any(ord(c) > 127 for a in fatoms(f) for c in a):
+            nonascii += 1
+        bad = judge(logic, f, obs, m_r, m_ln)
         if bad:
             cex = None
-            t_s = time.time()
-            if nsearch[0] > 45.0:
-                pass          # witnesses are searched until 45 s have been spent on it; later differences are reported as they are
-            elif 'restricted' in bad and r[0] == 'ok':
-                cex = semantic_counterexample(f, r[1], rng)
-            if cex is None and nsearch[0] <= 45.0 and 'LNot' in bad and ln[0] == 'ok':
-                # LNot(f) must be equivalent to not f: look for a structure/state where they differ
-                g0 = f if is_ctls_state(f) else ('A', f)
-                g1 = ln[1] if is_ctls_state(f) else ('A', ('not', ln[1]))
-                g0 = ('not', g0) if is_ctls_state(f) else g0
-                # state formulas: not f vs LNot f;  path formulas: A f vs A not (LNot f)
-                cex = semantic_counterexample(g0, g1, rng)
-            nsearch[0] += time.time() - t_s
+            if nsearch <= 45.0:   # witnesses are searched until 45 s have been spent on it; later differences are reported as they are
+                t_s = time.time()
+                cex = witness(f, r, ln, bad, rng)
+                nsearch += time.time() - t_s
             R.violation('rewriting differs from the proved model: %s' % ','.join(bad),
                         {'logic': logic, 'formula': f, 'formula_str': fstr(f), 'impl_restricted': r, 'model_restricted': m_r,
-                         'impl_LNot': ln, 'model_LNot': m_ln, 'semantic_counterexample': cex},
-                        no_input=(cex is None and 'alphabet' not in bad and 'double-negation' not in bad and 'formula modified' not in bad))
+                         'impl_LNot': ln, 'model_LNot': m_ln, 'impl_modules': {'restricted': obs[3], 'LNot': obs[4]},
+                         'semantic_counterexample': cex},
+                        no_input=(cex is None and not any(b in CONCRETE for b in bad)))
             continue
         if r[0] == 'ok' and r[1] != f:
             R.nontriv((logic, f))
             R.sample({'logic': logic, 'formula': fstr(f), 'restricted': fstr(r[1])})
-    R.cov['distribution'] = {l: sum(1 for it in items if it[0] == l) for l in ('CTL', 'LTL', 'CTLS')}
+    R.cov['distribution'] = {l: sum(1 for it in items if it[0] == l) for l in LOGICS}
+    R.cov['streams'] = dist
+    R.cov['or_and_nodes_by_width'] = {str(k): hw[k] for k in sorted(hw)}
+    R.cov['formulas_with_non_ascii_atom'] = nonascii
 
 
 def replay(R, data):
     d = data['data']
-    from pyModelChecking.language import LNot
     f = detuple(d['formula'])
-    L = lang_module(d['logic'])
-    o = to_py(f, L)
-    r = call(lambda: tree_of(o.get_equivalent_restricted_formula()))
-    m = model_batch([['restrictctl', fsx(f)] if d['logic'] == 'CTL' else [RCMD[d['logic']], fsx(f)]])[0]
-    print('impl :', r)
-    print('model:', m)
-    mr = (('ok', fparse(m[1])) if m[0] == 'some' else ('err', 'TypeError')) if d['logic'] == 'CTL' else ('ok', fparse(m))
-    if tuple(r) != mr:
-        R.violation('replayed', d)
+    logic = d['logic']
+    obs = impl_obs(logic, f)
+    outs = model_batch(model_cmds(logic, f))
+    m_r, m_ln = model_obs(logic, f, outs[0], outs[1])
+    print('formula         :', fstr(f))
+    print('impl  restricted:', obs[0], ' modules', obs[3])
+    print('model restricted:', m_r)
+    print('impl  LNot      :', obs[1], ' modules', obs[4])
+    print('model LNot      :', m_ln)
+    bad = judge(logic, f, obs, m_r, m_ln)
+    if bad:
+        cex = witness(f, obs[0], obs[1], bad, R.rng)
+        print('differs         :', ','.join(bad))
+        print('witness         :', cex)
+        R.violation('replayed: rewriting differs from the proved model: %s' % ','.join(bad), dict(d, semantic_counterexample=cex),
+                    no_input=(cex is None and not any(b in CONCRETE for b in bad)))
